@@ -550,6 +550,20 @@ func (x *c12ctx) entry(name string, in []byte) func() error {
 				_ = de.Summary()
 				_, _ = de.ToCbor()
 			}
+			// ... and with a caller-supplied challenge: the one the bundle records (so that the evidence itself is
+			// examined, whatever state it is in) and another one
+			if _, ev, e2 := document.UnmarshalVerifiableDoc(b); e2 == nil && ev != nil && ev.ActiveAuth != nil {
+				for _, ch := range [][]byte{ev.ActiveAuth.Nonce, {1, 2, 3, 4, 5, 6, 7, 8}} {
+					if v, e3 := verifier.NewVerifier(x.pool).WithAAChallenge(ch); e3 == nil && v != nil {
+						if d2, e4 := v.Verify(b); e4 == nil && d2 != nil {
+							_ = d2.Summary()
+						}
+					}
+					if mv, e3 := mobile.NewVerifier().WithAAChallenge(ch); e3 == nil && mv != nil {
+						_, _ = mv.Verify(b)
+					}
+				}
+			}
 			return err
 		}
 	case "mobile.Verifier.Verify":
